@@ -250,9 +250,11 @@ def oracle_history(evs, pool):
     if not missing and not extra_non_ucast and has_qu:
         return None, ()
     tags = ()
-    # the earliest divergence decides: an additional multicast right after a doubled QU query is the known QU finding
+    # the earliest divergence decides. A query with a QU question is exempt from the duplicate guard, so its second copy is handled as a
+    # new query (known finding): its multicast answer goes out twice, or - when the second handling adds a later group to the aggregation
+    # queue - the one answer is held back until the 500 ms bound of the first group (and with it the instance's own loop-back callbacks)
     diffs = sorted([('extra', x) for x in extra_non_ucast] + [('missing', x) for x in missing], key=lambda d: d[1][1])
-    if diffs and diffs[0][1][0] == 'send':
+    if diffs:
         t_first = diffs[0][1][1]
         if any(n in ('qu', 'qmix', 'tcqu') and 0 <= t_first - dt <= 700 for dt, n, _, _ in evs):
             tags = ('qu_double_multicast',)
